@@ -18,14 +18,14 @@ BOUNDS = {
     'quick': 'all trees with <= 3 binary operators over + - * / (all shapes x operator assignments), unary minus on '
              '<= 2 nodes (3 operators, 4 leaf-kind rotations) or <= 1 node (<= 2 operators, all 6^k leaf-kind '
              'assignments); zero-divisor '
-             'placements for <= 2 operators; comparison trees (one comparison per region, 6 operators, comparison as '
+             'placements for <= 2 operators; comparison trees (6 operators, comparisons of comparisons grouping left to right, comparison as '
              'arithmetic leaf, comparison of comparisons); & chains of 2..4 operands alone and against a comparison; '
              'left/right nested chains to depth 30',
     'thorough': 'as quick with <= 5 binary operators (unary minus on <= 2 nodes up to 4 operators, <= 1 node for 5), '
                 'zero-divisor placements for <= 3 operators, & chains of 2..5 operands',
 }
 ASSUMPTIONS = ['& ranks between + - and the comparisons (the statement lists unary minus, * /, + -, comparisons from the tightest down and puts & above the comparisons)',
-               'chained comparisons without parentheses and ^ are outside the statement',
+               'the six comparison operators are ONE level, grouping left to right (3>=2>1 is (3>=2)>1); ^ is outside the statement',
                'comparisons whose outcome depends on float rounding of a non-dyadic quotient are skipped',
                'float results compared with the exact rational value, rel 1e-9']
 
